@@ -2,28 +2,13 @@
    list os", and the in-flight invariant for the loop over the children of the current
    occurrence.  Definitions and the list-level lemmas about the specification. *)
 From XSG.Model Require Import Strings Necessity Element Parser Dom Spec.
-From XSG.Proofs Require Import StringsProofs NecessityProofs ElementProofs SpecProofs.
+From XSG.Proofs Require Import StringsProofs NecessityProofs ElementProofs SpecProofs SkelProofs.
 From Coq Require Import Lia Permutation.
-
-(* ---------- nested induction principle for node ---------- *)
-Section NodeInd.
-  Context (P : node -> Prop)
-          (HE : forall n ef a ks, Forall P ks -> P (NElem n ef a ks))
-          (HT : P NText) (HC : P NCData) (HM : P NMisc).
-  Fixpoint node_ind' (nd : node) : P nd :=
-    match nd with
-    | NElem n ef a ks =>
-        HE n ef a ks ((fix go (l : list node) : Forall P l :=
-                         match l with [] => Forall_nil _ | k :: r => Forall_cons k (node_ind' k) (go r) end) ks)
-    | NText => HT | NCData => HC | NMisc => HM
-    end.
-End NodeInd.
 
 (* well-formedness the reader guarantees: no duplicate attribute on any element *)
 Inductive wf_node : node -> Prop :=
 | wf_elem : forall n ef a ks, NoDup a -> Forall wf_node ks -> wf_node (NElem n ef a ks)
 | wf_text : wf_node NText | wf_cdata : wf_node NCData | wf_misc : wf_node NMisc.
-Definition is_elem (k : node) : bool := match k with NElem _ _ _ _ => true | _ => false end.
 
 (* ---------- vocabulary on kid lists ---------- *)
 Definition elem_names (ks : list node) : list str :=
@@ -104,13 +89,16 @@ Definition MidChild (os done : list node) (d : nec * element) : Prop :=
   /\ (cur <> [] -> fst d = Mand)
   /\ (cur = [] -> fst d = child_tag m os).
 
+Definition MidKids (c : element) (os done : list node) : Prop :=
+  NoDup (child_names (echildren c))
+  /\ (forall m, In m (child_names (echildren c)) <-> In m (flat_map okidnames os) \/ In m (elem_names done))
+  /\ Forall (MidChild os done) (echildren c).
+
 Definition Mid (c : element) (os done : list node) (A : list (nec * str)) : Prop :=
   etext c = existsb has_text os || chardata done
   /\ ecount c = N.of_nat (S (length os))
   /\ eattrs c = A
-  /\ NoDup (child_names (echildren c))
-  /\ (forall m, In m (child_names (echildren c)) <-> In m (flat_map okidnames os) \/ In m (elem_names done))
-  /\ Forall (MidChild os done) (echildren c).
+  /\ MidKids c os done.
 
 (* ---------- specification lemmas ---------- *)
 Lemma flat_map_snoc {A B} (f : A -> list B) l x : flat_map f (l ++ [x]) = flat_map f l ++ f x.
